@@ -17,7 +17,7 @@ EXPLANATION = (
     "this technique): reversibility over sequences of switches, route-table localisation, and everything that depends on the "
     "run-time state of leptos_router (histories, effects, navigation)."
 )
-ASSUMPTIONS = ["str::split('/') yields the path segments", "leptos_router delivers pathname, search and hash separately",
+ASSUMPTIONS = ["str::split('/') yields the path segments", "leptos_router delivers pathname, search (without `?`) and hash (with its `#` in the browser, as read from 0.7.8 history.rs; possibly without on the server) separately",
                "leptos_router 0.7.8 StaticSegment::test behaves as transcribed in rules/routeeval.py from its source (a prefix comparison that stops where the segment's text ends; "
                "the first, documentation-based model was wrong and hid D28)",
                "the inner routes of an I18nRoute match a remaining path by comparing its `/`-separated segments with the route's segments one by one (params match any segment)"]
@@ -346,7 +346,9 @@ def r0_urls(ctx):
         for ri, route in enumerate(ROUTES):
             splats = SPLATS if any(x.startswith("*") for x in route["en"]) else ([[], ["<no-optional>"]] if any(x.startswith("?") for x in route["en"]) else [[]])
             for splat in splats:
-                for (search, hashv) in (("", ""), ("tab=1&x=%2F", "sec-2")):
+                # (the fragment as leptos_router hands it over: the browser location keeps its `#` - `hash: location.hash()?` in 0.7.8's
+                #  history.rs -, a parsed request URL may not; the query string comes without its `?`)
+                for (search, hashv) in (("", ""), ("tab=1&x=%2F", "sec-2"), ("", "#team")):
                     for a in LOCALES + ["en!"]:
                         # "en!": the default locale written as an explicit prefix (`/en/about`: a URL of the N+1th route
                         # family, read as Some(en) by get_locale_from_path; hand-typed or shared links look like this)
@@ -358,7 +360,7 @@ def r0_urls(ctx):
                             src = _url(bsegs, a, route, splat, explicit_default=expl)
                             opt = not (splat and splat[0] == "<no-optional>")
                             served = _ref_localize(_concrete(route[a], [] if not opt else splat, opt), a, b_)
-                            want = "/" + "/".join(list(bsegs) + ([] if b_ == "en" else [b_]) + served) + ("?" + search if search else "") + ("#" + hashv if hashv else "")
+                            want = "/" + "/".join(list(bsegs) + ([] if b_ == "en" else [b_]) + served) + ("?" + search if search else "") + (("" if hashv.startswith("#") else "#") + hashv if hashv else "")
                             got = new_path(src, search, hashv, base, b_, a)
                             if isinstance(got, str):
                                 return r, False, got
@@ -374,7 +376,7 @@ def r0_urls(ctx):
                                 if isinstance(back, str):
                                     return r, False, back
                                 n_rt += 1
-                                if back != S(src):
+                                if back != S(src + ((("" if hashv.startswith("#") else "#") + hashv) if hashv else "")):
                                     bad.setdefault("round-trip", "base path %r, route %s: `%s` switched %s -> %s gives `%s`, switching back gives `%s`" % (base, "/".join(route["en"]) or "/", src, a, b_, got[1], absint.fmt(back)))
             # reading the locale back from the URL
             for a in LOCALES:
